@@ -129,6 +129,107 @@ def random_call(rng, op, nmax=10):
             "over_bare": nk == 1 and rng.random() < 0.5, "args": args, "apply": ap}
 
 
+# ---- value classes the integer model of sums says nothing about (complex, Fraction, Decimal, float): decided by the oracle
+#      alone - aggregate against Python's own reduction of each group's None-free values, window against aggregate
+CLS_POOLS = {
+    "complex": [["c", (1.0).hex(), (2.0).hex()], ["c", (0.0).hex(), (-1.0).hex()], ["c", (2.5).hex(), (0.0).hex()], ["i", 3]],
+    "Fr": [["Fr", 1, 2], ["Fr", -3, 4], ["Fr", 2, 1], ["Fr", 5, 3], ["i", 2]],
+    "Dec": [["Dec", "1.5"], ["Dec", "-2"], ["Dec", "0.25"], ["Dec", "10"]],
+    "float": [["f", (0.5).hex()], ["f", (1.5).hex()], ["f", (-2.0).hex()], ["i", 4], ["b", True]],
+    "td": [["td", 1], ["td", -3], ["td", 40]],
+}
+CLS_FNS = {"complex": ["sum", "count", "mean"], "Fr": ["sum", "min", "max", "count", "mean"],
+           "Dec": ["sum", "min", "max", "count", "mean"], "float": ["sum", "min", "max", "count", "mean", "stdev"],
+           "td": ["min", "max", "count"]}
+
+
+def class_calls(rng, n):
+    cs = []
+    for _ in range(n):
+        cls = rng.choice(list(CLS_POOLS))
+        rows = rng.randint(1, 8)
+        keys = [rng.choice([["s", "a"], ["s", "b"], ["i", 1], ["N"]]) for _ in range(rows)]
+        vals = rand_col(rng, rows, CLS_POOLS[cls], rng.choice([0, .2, .5]))
+        cs.append({"op": "cls", "cls": cls, "keys": keys, "vals": vals})
+    return cs
+
+
+def observe_classes(case):
+    import statistics
+    from serif import Table, Vector
+    keys = [V.dec(t) for t in case["keys"]]
+    vals = [V.dec(t) for t in case["vals"]]
+    t = Table([Vector(keys, name="k"), Vector(vals, name="v")])
+    order = []
+    for k in keys:
+        if not any(k is o or k == o for o in order):
+            order.append(k)
+    groups = [[x for kk, x in zip(keys, vals) if (kk is k or kk == k) and x is not None] for k in order]
+    out = {}
+    for fn in CLS_FNS[case["cls"]]:
+        o = {}
+        try:
+            if fn == "count":
+                o["ref"] = [len(g) for g in groups]
+            elif fn == "stdev":
+                o["ref"] = [statistics.stdev(g) if len(g) >= 2 else None for g in groups]
+            elif fn == "mean":
+                o["ref"] = [sum(g) / len(g) if g else None for g in groups]
+            elif fn == "sum":
+                o["ref"] = [sum(g) for g in groups]
+            else:
+                o["ref"] = [(min(g) if fn == "min" else max(g)) if g else None for g in groups]
+        except Exception as e:                               # noqa: BLE001  Python does not define it on these values
+            o["ref_exc"] = type(e).__name__
+        for m in ("aggregate", "window"):
+            try:
+                r = getattr(t, m)(over=t.k, **{fn + "_over": t.v})
+                o[m] = {"keys": list(r.cols()[0]), "vals": list(r.cols()[-1])}
+            except Exception as e:                           # noqa: BLE001
+                o[m] = {"exc": f"{type(e).__name__}: {e}"[:120]}
+        out[fn] = o
+    return {"order": order, "fns": out, "keys": keys}
+
+
+def _cls_close(x, y):
+    if x is None or y is None:
+        return x is None and y is None
+    if isinstance(x, float) or isinstance(y, float) or isinstance(x, complex) or isinstance(y, complex):
+        try:
+            return abs(x - y) <= 1e-9 * max(1.0, abs(x), abs(y))
+        except Exception:                                    # noqa: BLE001
+            return False
+    return x == y
+
+
+def oracle_classes(case, obs, what):
+    """what = "aggregate": aggregate against Python's reduction per group; "window": window against aggregate, per row.
+    The observation is a live python structure (this runs in the implementation subprocess, see observe)."""
+    for fn, o in obs["fns"].items():
+        a, w = o["aggregate"], o["window"]
+        if what == "aggregate":
+            if "ref_exc" in o:
+                continue
+            if "exc" in a:
+                return f"class-aggregate-raises: {fn} over {case['vals']} by {case['keys']}: {a['exc']}"
+            if len(a["vals"]) != len(o["ref"]) or not all(_cls_close(x, y) for x, y in zip(a["vals"], o["ref"])):
+                return (f"class-aggregate: {fn} over {case['vals']} by {case['keys']} gives {a['vals']!r}; Python's reduction of "
+                        f"each group's None-free values gives {o['ref']!r}")
+        else:
+            if "exc" in a:
+                continue
+            if "exc" in w:
+                return f"class-window-raises: {fn} over {case['vals']} by {case['keys']}: {w['exc']} (aggregate does not raise)"
+            if len(w["vals"]) != len(obs["keys"]):
+                return f"class-window-rows: {fn}: {len(w['vals'])} rows for a table of {len(obs['keys'])}"
+            for i, k in enumerate(obs["keys"]):
+                g = next((j for j, kk in enumerate(a["keys"]) if kk is k or kk == k), None)
+                if g is None or not _cls_close(w["vals"][i], a["vals"][g]):
+                    return (f"class-window-vs-aggregate: {fn} over {case['vals']} by {case['keys']}: row {i} has "
+                            f"{w['vals'][i]!r}, aggregate computes {None if g is None else a['vals'][g]!r} for its key")
+    return None
+
+
 def with_history(rng, cases):
     """the same calls, made on a table object that was grouped once before while it held its rows in another
     order and was then rewritten in place (see _run): catches anything remembered across calls"""
@@ -233,16 +334,25 @@ def malformed(op):
 
 # ------------------------------------------------------------------ implementation side
 
+class _Kept:
+    """what custom function 0 returns: it KEEPS the list object it was given (a function collecting its group's members);
+    the observer reads it only after the whole call has returned - every call must have been given a list of its own"""
+    __slots__ = ("vals",)
+
+    def __init__(self, vals):
+        self.vals = vals
+
+
 def _func(log, idx, fid):
     """the custom function of apply entry number idx: behaviour fid, records what it receives"""
     def f(vals):
         log.append([idx, fid, type(vals).__name__, [V.enc(x) for x in vals]])
-        return tuple(vals) if fid == 0 else (len(vals) if fid == 1 else None)
+        return _Kept(vals) if fid == 0 else (len(vals) if fid == 1 else None)
     return f
 
 
 def _enc_cols(t):
-    return [[V.enc(x) for x in c._underlying] for c in t._underlying]
+    return [[V.enc(tuple(x.vals) if isinstance(x, _Kept) else x) for x in c._underlying] for c in t._underlying]
 
 
 def _run(case, method):
@@ -335,6 +445,11 @@ def _call_on(t, names, pre, case, method, log, obs=None):
 
 def observe(case):
     try:
+        if case["op"] == "cls":
+            o = observe_classes(case)
+            return {"cls": True, "agg_verdict": oracle_classes(case, o, "aggregate"),
+                    "win_verdict": oracle_classes(case, o, "window"),
+                    "ran": [fn for fn, x in o["fns"].items() if "exc" not in x["aggregate"]]}
         if case["op"] == "agg":
             return _run(case, "aggregate")
         if case["op"] == "win":
